@@ -158,7 +158,7 @@ pub fn apply(mut data: Vec<u8>, m: &Mutation) -> Vec<u8> {
     data
 }
 
-fn mutation() -> impl Strategy<Value = Mutation> {
+pub fn mutation() -> impl Strategy<Value = Mutation> {
     prop_oneof![
         3 => any::<u16>().prop_map(Mutation::Truncate),
         2 => (any::<u16>(), any::<u16>()).prop_map(|(a, b)| Mutation::DeleteRange(a, b)),
@@ -399,6 +399,9 @@ pub fn property() -> Property {
     Property {
         id: "C14",
         level: "exploration",
-        parts: vec![Box::new(PropPart(Mutations))],
+        parts: vec![
+            Box::new(PropPart(Mutations)),
+            Box::new(PropPart(crate::props::agent_parts::C14Agent)),
+        ],
     }
 }
